@@ -315,7 +315,8 @@ def observe(block, state, meter=False, max_steps=100000):
                             "LT", "GT", "SLT", "SGT", "EQ", "EXP", "ADDMOD", "MULMOD"):
                     m.used.extend(args)
                 if meter and name == "EXP":
-                    m.gas += 50 * ((args[1].bit_length() + 7) // 8)
+                    # meter == "flat_exp": the tool's static price (60 = one exponent byte) instead of EIP-160
+                    m.gas += 50 if meter == "flat_exp" else 50 * ((args[1].bit_length() + 7) // 8)
                 st.insert(0, opsem.apply(name, args))
             elif name in ENV0:
                 st.insert(0, m.env(name))
